@@ -205,10 +205,37 @@ def perform(scn: Dict[str, Any], *, form: str, profile: str = "plain", salt: int
 
     xs: Dict[int, Any] = {}
 
+    class SyncCold(ColdObservable):
+        """A logged cold observable whose offset-0 messages are delivered synchronously INSIDE subscribe (before it
+        returns its disposable), like reactivex.create / of / from_iterable on the immediate path; the later messages
+        are scheduled relative to the subscription like ColdObservable's."""
+
+        def _subscribe_core(self, observer=None, scheduler=None):
+            from reactivex.disposable import CompositeDisposable, Disposable
+            from reactivex.testing.subscription import Subscription
+            self.subscriptions.append(Subscription(self.scheduler.clock))
+            index = len(self.subscriptions) - 1
+            disp = CompositeDisposable()
+            for message in self.messages:
+                if message.time == 0:
+                    message.value.accept(observer)
+                else:
+                    disp.add(self.scheduler.schedule_relative(
+                        message.time, lambda _s, _st=None, n=message.value: n.accept(observer)))
+
+            def dispose() -> None:
+                start = self.subscriptions[index].subscribe
+                end = self.scheduler.to_seconds(self.scheduler.now)
+                self.subscriptions[index] = Subscription(start, int(end))
+                disp.dispose()
+            return Disposable(dispose)
+
     def make_sources():
         for a in range(1, napps + 1):
             h = bool(hots[a - 1])
-            xs[a] = HotObservable(ts, messages(a, h)) if h else ColdObservable(ts, messages(a, h))
+            ms = messages(a, h)
+            cold = SyncCold if any(m.time == 0 for m in ms) else ColdObservable
+            xs[a] = HotObservable(ts, ms) if h else cold(ts, ms)
 
     cx: Dict[int, Any] = {}      # what connect() is called on
     ys: Dict[int, Any] = {}      # what subscribers subscribe to
@@ -230,6 +257,9 @@ def perform(scn: Dict[str, Any], *, form: str, profile: str = "plain", salt: int
     out: Dict[int, List[Tuple[Any, str, Any]]] = {}
     handles: Dict[int, Any] = {}
     conns: Dict[Tuple[int, int], Any] = {}
+    outer: List[Tuple[int, int]] = []       # connect commands in progress
+    inner_handles: List[Any] = []           # what re-entrant connect() calls returned during the current connect command
+    nested: Dict[int, List[Any]] = {}
 
     def do(cmd):
         c, a, k, e = cmd["c"], cmd["a"], cmd["k"], cmd["e"]
@@ -255,12 +285,34 @@ def perform(scn: Dict[str, Any], *, form: str, profile: str = "plain", salt: int
                         handles[child] = None        # re-entrancy guard: exactly one child
                         handles[child] = ys[a].subscribe(**recorder(out.setdefault(child, [])), **kw)
                 cb["on_next"] = spawning_next
+            if mode == "reconnect":
+                # on its first element the subscriber calls connect() on the connectable, from inside the delivery -
+                # possibly while the outer connect() is still subscribing a source that emits synchronously
+                plain_next2, fired = cb["on_next"], []
+
+                def reconnecting_next(v):
+                    plain_next2(v)
+                    if not fired:
+                        fired.append(True)
+                        h = cx[a].connect()
+                        nested.setdefault(a, []).append((len(outer), h))
+                        if outer and outer[-1][0] == a:
+                            inner_handles.append(h)
+                cb["on_next"] = reconnecting_next
             handles[k] = target.subscribe(**cb, **kw)
         elif c == "unsub":
             if handles.get(k) is not None:
                 handles[k].dispose()
         elif c == "connect":
-            h = cx[a].connect()
+            outer.append((a, e))
+            del inner_handles[:]
+            try:
+                h = cx[a].connect()
+            finally:
+                outer.pop()
+            # NOT asserted: the handle a re-entrant connect() returns while the outer call is still subscribing the
+            # source (the unchanged library returns the not-yet-assigned `self.subscription`: None or the previous
+            # connection's handle) - the statement of C24 is about source subscriptions; reported in notes/connect.md
             if (a, e) in conns and conns[(a, e)] is not h:
                 problems.append("connect() while connected returned a different connection")
             conns[(a, e)] = h
